@@ -357,7 +357,8 @@ def install(ctx, repo, probes):
     for mode in R.MODES:
         ctx.target("mode/" + mode)
     ctx.target("anchor-24:00", "reentrant-iteration",
-               "single/three-notations")
+               "single/three-notations", "shifted/r+d", "shifted/d+r",
+               "shifted/r-d")
     for fmt in (3, 4):
         for kind in ("bounded", "unbounded"):
             ctx.target("decimal/fmt%d/%s" % (fmt, kind))
@@ -456,6 +457,22 @@ def run_case(ctx, repo, case):
                                   len(again), desc))
             else:
                 ctx.cls("reentrant-iteration")
+        elif case["op"] == "shifted":
+            # a recurrence that comes out of r + d / d + r / r - d is a
+            # recurrence like any other: n points, steps, anchor
+            ctx.ev("shifted")
+            sh = repo.dur(case["shift"])
+            how = case["how"]
+            try:
+                r2 = rec + sh if how == "r+d" else (
+                    sh + rec if how == "d+r" else rec - sh)
+            except ValueError:
+                return
+            ctx.case_rec_id = id(r2)
+            ctx.case_given_anchor = None
+            pts2 = consume(r2, 1000 if desc["reps"] else 12)
+            if pts2:
+                ctx.cls("shifted/" + how)
         elif case["op"] == "single":
             # one repetition: whatever the notation (and whatever second
             # point or interval is spelled) the series is exactly the anchor
@@ -586,6 +603,23 @@ def workload(ctx, repo):
             case = {"op": "three", "desc": desc,
                     "second_rep": rng.choice(gen.REPS),
                     "second_off": list(gen.rand_offset(rng))}
+        elif k % 16 == 14:
+            desc = recgen.make(rng, mode, reps=rng.choice((2, 3, 5, 9, None)),
+                               interval="exact")
+            if k % 32 == 14:
+                # mid-month anchors: a month/year shift then moves every
+                # point alike unless the series straddles a clamp
+                a = desc["end"] if desc["fmt"] == 4 else desc["start"]
+                if "month_of_year" in a:
+                    a.update(month_of_year=1, day_of_month=15)
+                    if "dur" in desc:
+                        desc["dur"] = {"days": 10}
+            case = {"op": "shifted", "desc": desc,
+                    "how": rng.choice(("r+d", "d+r", "r-d")),
+                    "shift": rng.choice(({"months": 1}, {"years": 1},
+                                         {"months": -1}, {"days": 3},
+                                         {"years": 1, "months": 1},
+                                         {"hours": 36}))}
         elif k % 16 == 6:
             desc = recgen.make(rng, mode, fmt=3, reps=1, interval="exact")
             if not recgen._len(desc["dur"]):
